@@ -67,14 +67,47 @@ class CKey:
     __slots__ = ("v", "__weakref__")
     def __init__(self, v): self.v = v
     def __eq__(self, o): return isinstance(o, CKey) and self.v == o.v
-    def __lt__(self, o): return self.v < o.v
+    def __lt__(self, o): return self.v < o.v if isinstance(o, CKey) else NotImplemented
     def __hash__(self): return hash(("CKey", self.v))
     def __repr__(self): return "CKey(%d)" % self.v
+
+class Unorderable:
+    """a key object that cannot be compared with any stored key: every search raises TypeError at its first comparison"""
+    __slots__ = ("serial", "__weakref__")
+    def __init__(self, serial): self.serial = serial
+    def __repr__(self): return "Unorderable(%d)" % self.serial
 
 class Val:
     __slots__ = ("serial", "__weakref__")
     def __init__(self, serial): self.serial = serial
     def __repr__(self): return "Val(%d)" % self.serial
+
+class RevInt(int):
+    """an int SUBCLASS with its own (reversed) total order: must go through rich comparison, not the exact-int fast path"""
+    def __lt__(self, o): return int(self) > int(o) if isinstance(o, int) else NotImplemented
+    def __gt__(self, o): return int(self) < int(o) if isinstance(o, int) else NotImplemented
+    def __le__(self, o): return int(self) >= int(o) if isinstance(o, int) else NotImplemented
+    def __ge__(self, o): return int(self) <= int(o) if isinstance(o, int) else NotImplemented
+    def __eq__(self, o): return isinstance(o, int) and int(self) == int(o)
+    def __ne__(self, o): return not self.__eq__(o)
+    def __hash__(self): return hash(("RevInt", int(self)))
+    def __repr__(self): return "RevInt(%d)" % int(self)
+
+class CIStr(str):
+    """a str SUBCLASS ordered case-insensitively: must go through rich comparison, not the exact-str fast path"""
+    def __lt__(self, o): return str(self).lower() < str(o).lower() if isinstance(o, str) else NotImplemented
+    def __gt__(self, o): return str(self).lower() > str(o).lower() if isinstance(o, str) else NotImplemented
+    def __le__(self, o): return str(self).lower() <= str(o).lower() if isinstance(o, str) else NotImplemented
+    def __ge__(self, o): return str(self).lower() >= str(o).lower() if isinstance(o, str) else NotImplemented
+    def __eq__(self, o): return isinstance(o, str) and str(self).lower() == str(o).lower()
+    def __ne__(self, o): return not self.__eq__(o)
+    def __hash__(self): return hash(("CIStr", str(self).lower()))
+    def __repr__(self): return "CIStr(%r)" % str(self)
+
+def _ci(o):
+    # digits written as letters a..j; odd keys in upper case, so code-point order differs from the key's own order
+    s = "".join("abcdefghij"[int(d)] for d in "%015d" % (o + OFF))
+    return CIStr(s.upper() if o % 2 else s)
 
 OFF = 10 ** 12          # far beyond the small-int cache: every key object is a fresh int / str
 MAKE = {
@@ -83,12 +116,16 @@ MAKE = {
     "custom": lambda o: CKey(o),
     "bigint": lambda o: (o + OFF) * (2 ** 70),       # beyond C long: the int fast path falls through to rich compare
     "mixint": lambda o: (o + OFF + 0) if o < 0 else (2 ** 63 + o),   # some keys fit a C long, some do not
+    "subint": lambda o: RevInt(OFF - o),              # int subclass, reversed order: model order o <-> raw value OFF - o
+    "substr": _ci,                                    # str subclass, case-insensitive order
 }
 def ord_of(flav, k):
     if flav == "int": return k - OFF
     if flav == "str": return int(k) - OFF
     if flav == "custom": return k.v
     if flav == "mixint": return (k - 2 ** 63) if k >= 2 ** 63 else (k - OFF)
+    if flav == "subint": return OFF - int(k)
+    if flav == "substr": return int("".join(str("abcdefghij".index(c)) for c in str(k).lower())) - OFF
     return k // (2 ** 70) - OFF
 
 def collect_leaves(n, out):
@@ -301,6 +338,32 @@ class Exec:
             else: d[o] = (self.kser(k), self.vser(v))
             del k, v
             self.need_after = True; return "ok"
+        if op in ("badset", "badget", "baddel", "badin"):
+            # a key whose comparison raises: the call must raise TypeError, change nothing and keep no reference
+            ser = int(a[0])
+            if ser not in self.keys:
+                bk = Unorderable(ser)
+                self.keys[ser] = bk
+                self.base[("k", ser)] = sys.getrefcount(bk) - 2
+                del bk
+            v = self.val(a[1]) if op == "badset" else None
+            mod_before = t._verif_dump()[2]
+            try:
+                if op == "badset": t[self.keys[ser]] = v
+                elif op == "badget": t[self.keys[ser]]
+                elif op == "baddel": del t[self.keys[ser]]
+                else: got_in = self.keys[ser] in t
+                got = "no-compare" if op != "badin" else ("true" if got_in else "false")
+            except TypeError:
+                got = "typeerror"
+            except KeyError:
+                got = "keyerror"
+            if got == "typeerror" and t._verif_dump()[2] != mod_before:
+                self.fail("C12", "%s: a call that raised TypeError changed the modification stamp" % op)
+            if got == "no-compare" and op == "badset":
+                self.dead = True      # the tree now holds an incomparable key: nothing after this is defined
+            v = None
+            self.need_after = True; return got
         if op == "del":
             k = self.key(a[0]); o = ord_of(self.flav, k)
             try: del t[k]; got = "ok"
@@ -478,7 +541,7 @@ class Exec:
 # ---------------------------------------------------------------- generators
 def gen_case(r, n, kind):
     mode = r.pick(["type", "subclass", "wrapper", "wrapper"])
-    flav = r.pick(["int", "int", "str", "custom", "bigint", "mixint"])
+    flav = r.pick(["int", "int", "str", "custom", "bigint", "mixint", "subint", "substr"])
     yield "cfg mode " + mode
     yield "cfg flavour " + flav
     caps = [4, 4, 4, 5, 5, 6, 7, 8, 9, 16, 33, 64, 128, 4 + r.below(40)]
@@ -520,6 +583,10 @@ def gen_case(r, n, kind):
             yield "C in %s" % key(r.chance(50))[1]; mut = False
         elif x < 69:
             yield "C len"; mut = False
+            if shadow and r.chance(25):
+                # searches with a key that cannot be compared (only while the tree holds something to compare with)
+                badser = 900000 + r.below(50)
+                yield "C %s %d %s" % (r.pick(["badset", "badset", "badget", "baddel", "badin"]), badser, val())
         elif x < 73:
             yield "C " + r.pick(["items", "keys", "values"]); mut = False
         elif x < 80:
